@@ -674,9 +674,12 @@ impl C {
     /// which exports refer to that come from imports.
     fn remove_types_redefined_by_exports(&mut self, resolve: &Resolve, world: WorldId) {
         let live_import_types = imported_types_used_by_exported_interfaces(resolve, world);
-        self.dtor_funcs.retain(|k, _| live_import_types.contains(k));
-        self.type_names.retain(|k, _| live_import_types.contains(k));
-        self.resources.retain(|k, _| live_import_types.contains(k));
+        // Anonymous types made only of primitives are named after the world
+        // rather than an interface, so exports never redefine them.
+        let keep = |k: &TypeId| live_import_types.contains(k) || is_prim_type_id(resolve, *k);
+        self.dtor_funcs.retain(|k, _| keep(k));
+        self.type_names.retain(|k, _| keep(k));
+        self.resources.retain(|k, _| keep(k));
     }
 
     fn perform_cast(&mut self, op: &str, cast: &Bitcast) -> String {
